@@ -597,7 +597,7 @@ func runC20(c *Ctx) {
 		}
 		items := gcsItems(c, 2000+r.Intn(3000), 0x21)
 		q := append(gcsItems(c, 10, 0x99), items[3], items[len(items)-1])
-		c.Call(Event{"op": "GcsConc", "items": bytesList(items), "q": bytesList(q), "k": []int{2, 8, 16, 32}[round%4], "malformed": round%3 == 2})
+		c.Call(Event{"op": "GcsConc", "items": bytesList(items), "q": bytesList(q), "k": []int{2, 8, 16, 32}[round%4], "malformed": round%3 == 2, "reused": round%3 == 1})
 	}
 	c.Flush()
 	// (i) small rounds with reload / unload: TLC searches for a linearization
